@@ -512,6 +512,27 @@ Qed.
 Lemma sel_width_place : forall s rel p g, sel_width (place s rel p g) = sel_width s.
 Proof. reflexivity. Qed.
 
+Lemma map_flat_map : forall {A B C} (f : B -> C) (g : A -> list B) l, map f (flat_map g l) = flat_map (fun x => map f (g x)) l.
+Proof. intros A B C f g l. induction l as [|x r IH]; [reflexivity|]. cbn [flat_map]. rewrite map_app, IH. reflexivity. Qed.
+Lemma flat_map_ext_in_simple : forall {A B} (f g : A -> list B) l, (forall x, In x l -> f x = g x) -> flat_map f l = flat_map g l.
+Proof. intros A B f g l H. induction l as [|x r IH]; [reflexivity|]. cbn [flat_map]. rewrite (H x (or_introl eq_refl)), IH; [reflexivity|]. intros y Hy. apply H. right. assumption. Qed.
+
+Lemma flat_map_cons_perm : forall {A} (g : A -> list A) l, Permutation (flat_map (fun t => t :: g t) l) (l ++ flat_map g l).
+Proof.
+  intros A g l. induction l as [|x r IH]; [constructor|]. cbn [flat_map app]. constructor.
+  eapply Permutation_trans; [apply Permutation_app_head; exact IH|].
+  rewrite !app_assoc. apply Permutation_app_tail. apply Permutation_app_comm.
+Qed.
+Lemma flat_map_single : forall {A B} (g : A -> list B) l x, NoDup l -> In x l -> (forall y, In y l -> y <> x -> g y = []) -> flat_map g l = g x.
+Proof.
+  intros A B g l x Hnd. induction Hnd as [|y r Hni Hr IH]; intros Hin Hg; [destruct Hin|]. cbn [flat_map].
+  destruct Hin as [->|Hin].
+  - rewrite (flat_map_ext_in_simple g (fun _ => []) r).
+    + assert (E : forall (l0 : list A), flat_map (fun _ : A => @nil B) l0 = []) by (induction l0; cbn; auto). rewrite E. apply app_nil_r.
+    + intros z Hz. apply Hg; [right; assumption|]. intros ->. contradiction.
+  - rewrite (Hg y (or_introl eq_refl)) by (intros ->; contradiction). cbn [app]. apply IH; [assumption|]. intros z Hz. apply Hg. right. assumption.
+Qed.
+
 Lemma NoDup_prefix : forall {A} (a b : list A), NoDup (a ++ b) -> NoDup a.
 Proof.
   intros A a b. induction a as [|x r IH]; cbn [app]; intros H; [constructor|]. inversion H as [|? ? Hni Hr]; subst.
@@ -1056,5 +1077,74 @@ Section MuxImport.
       unfold sig_size, overlaps. cbn [s_kind s_rel s_size s_gsize timg place std_imp mx_img]. rewrite sel_width_place, Hsw2.
       rewrite (proj1 (proj2 (img_fields (snd q) Hqs Hqne))).
       destruct (proj2 tops_geo mx (snd q) Hmx Hqs Hmt Hqt (fun E => Hqne (eq_sym E))) as [Hd|Hd]; rewrite ?sig_size_mx, ?Hqsz in Hd; unfold mstart in *; lia.
+  Qed.
+
+  (* ---- what the exporter wrote is the image of a permutation of the signals ---- *)
+  Definition walk_kids : list signal :=
+    flat_map (fun id => filter (fun c => in_group c id) (children sigs mx)) (zrange 0 (Z.to_nat (s_gcount mx))).
+  Definition S0 : list signal := flat_map (fun t => t :: (if is_muxb t then walk_kids else [])) (filter is_topb sigs).
+
+  Lemma kids_children : kids_ok sigs mx.
+  Proof. eapply kids_ok_of; eauto. Qed.
+
+  Lemma child_in_sigs : forall c, In c (children sigs mx) -> In c sigs /\ is_topb c = false /\ child_ok mx c.
+  Proof.
+    intros c Hc. destruct kids_children as [HK _]. rewrite Forall_forall in HK. pose proof (HK c Hc) as Hok.
+    unfold children in Hc. apply Proofs.In_sort_by in Hc. apply filter_In in Hc. destruct Hc as [Hc Hp].
+    split; [assumption|]. split; [|assumption]. unfold is_topb. destruct (s_parent c); [reflexivity|discriminate].
+  Qed.
+
+  Lemma D_img : flat_map (tdsigs es sigs o recs) (filter is_topb sigs) = map img S0.
+  Proof.
+    unfold S0. assert (G : forall l, (forall t, In t l -> In t sigs /\ is_topb t = true) ->
+                     flat_map (tdsigs es sigs o recs) l = map img (flat_map (fun t => t :: (if is_muxb t then walk_kids else [])) l)).
+    { induction l as [|t r IH]; intros Hl; [reflexivity|]. cbn [flat_map]. rewrite map_app, IH by (intros x Hx; apply Hl; right; assumption).
+      f_equal. destruct (Hl t (or_introl eq_refl)) as [Ht Htt]. cbn [map]. unfold tdsigs.
+      destruct (is_muxb t) eqn:Em.
+      - assert (t = mx) by (destruct Hms as [_ [_ [_ [Hu _]]]]; apply Hu; assumption). subst t.
+        unfold is_muxb in Em. destruct (s_kind mx) eqn:Ek; try discriminate.
+        f_equal; [unfold img; rewrite Hmxm; reflexivity|].
+        unfold wsigs, walk_kids. rewrite map_flat_map. apply flat_map_ext_in_simple. intros id _.
+        apply map_ext_in. intros c Hc. apply filter_In in Hc. destruct Hc as [Hc Hg].
+        destruct (child_in_sigs c Hc) as [Hcs [Hct Hok]].
+        assert (Hcne : c <> mx) by (intros ->; destruct mx_top as [_ H']; congruence).
+        destruct (other_sig c Hcs Hcne) as [Hnm _]. unfold img. rewrite Hnm, Hct.
+        rewrite (in_group_grp mx c id Hok) in Hg. apply Z.eqb_eq in Hg. rewrite Hg. reflexivity.
+      - unfold img. rewrite Em, Htt. unfold is_muxb in Em. destruct (s_kind t); try discriminate; reflexivity. }
+    apply G. intros t Ht. apply filter_In in Ht. exact Ht.
+  Qed.
+
+  Lemma S0_perm : Permutation sigs S0.
+  Proof.
+    pose proof Hms as [Hids [_ [_ [Hu [Hch _]]]]].
+    assert (Hnd : NoDup sigs) by (eapply NoDup_map_inv; exact Hids).
+    destruct mx_top as [_ Hmt].
+    (* S0 ~ tops ++ walk_kids *)
+    assert (P1 : Permutation S0 (filter is_topb sigs ++ walk_kids)).
+    { unfold S0. eapply Permutation_trans; [apply flat_map_cons_perm|]. apply Permutation_app_head.
+      rewrite (flat_map_single (fun t => if is_muxb t then walk_kids else []) (filter is_topb sigs) mx).
+      - rewrite Hmxm. apply Permutation_refl.
+      - apply NoDup_filter. assumption.
+      - apply filter_In. auto.
+      - intros y Hy Hne. destruct (is_muxb y) eqn:E; [|reflexivity]. exfalso. apply Hne. apply filter_In in Hy. apply Hu; tauto. }
+    (* walk_kids ~ the children *)
+    assert (P2 : Permutation walk_kids (filter (fun s => negb (is_topb s)) sigs)).
+    { unfold walk_kids.
+      assert (Hfe : forall id, filter (fun c => in_group c id) (children sigs mx) = filter (fun c => id =? grp c) (children sigs mx)).
+      { intros id. apply filter_ext_in. intros c Hc. destruct (child_in_sigs c Hc) as [_ [_ Hok]]. apply (in_group_grp mx c id Hok). }
+      rewrite (flat_map_ext_in_simple _ (fun id => filter (fun c => id =? grp c) (children sigs mx))) by (intros id _; apply Hfe).
+      eapply Permutation_trans; [apply walk_perm|].
+      rewrite filter_all.
+      2:{ intros c Hc. destruct (child_in_sigs c Hc) as [_ [_ [_ [_ [[g [Hg Hgr]] _]]]]]. unfold grp. rewrite Hg.
+          destruct selw_facts as [_ [_ [Hg1 _]]]. rewrite Z2Nat.id by lia. lia. }
+      unfold children. eapply Permutation_trans; [apply Permutation_sym, sort_by_perm|].
+      erewrite filter_ext_in; [apply Permutation_refl|]. intros c Hc. cbn beta. unfold is_topb.
+      destruct (s_parent c) as [q|] eqn:Ep; cbn [negb]; [|reflexivity].
+      destruct (Hch c Hc ltac:(unfold is_topb; rewrite Ep; reflexivity)) as [p [Hp [_ [Hpm [_ [Hpp _]]]]]].
+      rewrite (Hu mx p Hmx Hp Hmxm Hpm). rewrite Ep in Hpp. inversion Hpp. apply Z.eqb_refl. }
+    eapply Permutation_trans; [|apply Permutation_sym; exact P1].
+    eapply Permutation_trans; [|apply Permutation_app_head; apply Permutation_sym; exact P2].
+    eapply Permutation_trans; [|apply Permutation_sym; apply filter_partition_perm; intros x _; destruct (is_topb x); reflexivity].
+    rewrite filter_all; [apply Permutation_refl|]. intros x _. destruct (is_topb x); reflexivity.
   Qed.
 End MuxImport.
